@@ -42,9 +42,15 @@ LEVEL_TEXT = ("PARTIAL proof, two layers. Coq proofs for all inputs of the decis
               "maintenance when the partition rows sum to 1 (re-proved for all 59 shipped parameter files each run) and the organ update "
               "changes mass by growth - death + handed-on dead mass + 0.1 kg per floored organ. The same Gallina kernels are executed on "
               "binary64 and compared bit for bit with traced PhytoOut transitions of real runs (all ten N-content branches by replaying the "
-              "real code with another NGEFKT). Finiteness of the state and the [0,1] range of TRREL/ETREL are observed on traces only.")
+              "real code with another NGEFKT). Round 9 added two layers: the development-rate block (vernalisation, day-length factor, stress "
+              "acceleration) with the factors COMPUTED, so that 'the stage never decreases / stage dates ordered' holds for the composed run with no "
+              "assumption about them; root(): potential rooting depth finite, positive and monotone in the temperature sum; root distribution, "
+              "dead-root and dead-leaf N to the soil (crop loss = pool gain), supply terms, crop coefficient; and radia() - light-use efficiency, "
+              "AMAX floor, light response and assimilation kernel composed: 0 <= MAINT <= GPHOT for the true log/exp. All of these are executed on "
+              "binary64 and compared bit for bit (8 further kernel ties, ~12,000 cases per quick run). "
+              "Finiteness of the state and the [0,1] range of TRREL/ETREL are observed on traces only.")
 LEVEL_NOTE = ("Partial: the modelled fragments are tied by trace (shadow replay of the exported PhytoOut), not by calling fragments in isolation; "
-              "photosynthesis/respiration/root/vernalisation functions are oracle inputs; GEHOB >= 0 needs the root-share hypothesis the code "
+              "the values of transcendental calls and the maintenance sum of radia are oracle inputs; GEHOB >= 0 needs the root-share hypothesis the code "
               "does not establish (F24); no rounding-error bound between R and binary64 (identities observed to 1e-9 on every traced crop day). "
               "Reals axioms of the standard library; Coq-Interval (primitive floats) only in CropNProofs.lg_bound.")
 TECHNIQUE = "Coq proof (case analysis on clamps, induction over days, lra/nra, exp monotonicity) + bit-exact trace correspondence + property oracle on traced rotations"
